@@ -131,10 +131,13 @@ func runBuilderDiscipline(rr *RuleRun) {
 				}
 				return true
 			})
-			// locals computed from b.orig (realLen := b.orig.Length())
+			// locals computed from b.orig (realLen := b.orig.Length(); violated = min.GreaterThan(b.orig))
 			ast.Inspect(cond, func(n ast.Node) bool {
 				if id, ok := n.(*ast.Ident); ok {
 					if o := info.Uses[id]; o != nil {
+						if assignedFromOrig(info, fd.Body, o, recv) {
+							out = append(out, Fact{"consulted", "orig"})
+						}
 						if st, idx, rhs := findDefine(info, fd.Body, o); st != nil && idx < len(rhs) {
 							ast.Inspect(rhs[idx], func(m ast.Node) bool {
 								if se, ok := m.(*ast.SelectorExpr); ok && se.Sel.Name == "orig" && objOf(info, se.X) == recv {
@@ -826,4 +829,30 @@ func runCollapseNeedsNullness(rr *RuleRun) {
 		}
 		return true
 	})
+}
+
+
+// assignedFromOrig: some assignment to o (definition or plain assignment) has a right-hand side that
+// reads the receiver's orig field.
+func assignedFromOrig(info *types.Info, root ast.Node, o, recv types.Object) bool {
+	found := false
+	ast.Inspect(root, func(n ast.Node) bool {
+		as, ok := n.(*ast.AssignStmt)
+		if !ok || found || len(as.Lhs) != len(as.Rhs) {
+			return true
+		}
+		for i, l := range as.Lhs {
+			if objOf(info, l) != o {
+				continue
+			}
+			ast.Inspect(as.Rhs[i], func(m ast.Node) bool {
+				if se, ok := m.(*ast.SelectorExpr); ok && se.Sel.Name == "orig" && objOf(info, se.X) == recv {
+					found = true
+				}
+				return true
+			})
+		}
+		return true
+	})
+	return found
 }
